@@ -22,6 +22,9 @@ CHUNK = 200
 
 FACES = ("min_x", "max_x", "min_y", "max_y", "min_z", "max_z")
 POLS = ("h", "v", "obl", "hfix")
+SWITCHES = ("on", "delay", "window")
+DELAY_PERIODS = {"on": 0.0, "delay": 2.0, "window": 1.5}      # switch-on time of the source in periods
+EXTRA_PERIODS = 2                                              # switched scenes run two periods longer
 RES = 50e-9
 NPERIODS = 14
 PULSE_SWF = 4       # pulse: spectral width f0 / 4
@@ -34,7 +37,7 @@ EXPLANATION = ("trace-monitor: TLC enumerates the configuration space (Direction
 
 def configs():
     """mirror of DirectionDefs!Configs"""
-    return [(a, d, p, pr, r, b) for b in ("uniform", "gauss") for r in (15, 20) for pr in ("cw", "pulse") for a in range(3) for d in ("+", "-") for p in POLS]
+    return [(a, d, p, pr, r, b, sw) for sw in SWITCHES for b in ("uniform", "gauss") for r in (15, 20) for pr in ("cw", "pulse") for a in range(3) for d in ("+", "-") for p in POLS]
 
 
 def _init_count(r):
@@ -46,11 +49,11 @@ def model_check(ctx):
     from lib.tlc import MachineryError
 
     r = ctx.mc("DirectionScenes", "MC_DirectionScenes_q.cfg" if ctx.quick else "MC_DirectionScenes_t.cfg",
-               label="192 scenes (axis x direction x polarisation class x profile x resolution x beam) x ramp levels x every residual of the two-sheet model")
+               label="576 scenes (axis x direction x polarisation class x profile x resolution x beam x switch) x ramp levels x every residual of the two-sheet model")
     n = _init_count(r)
     if n != len(configs()):
         raise MachineryError(f"DirectionScenes enumerates {n} scenes, the harness {len(configs())}")
-    for c in ("neg", "neg2", "neg3", "neg4"):
+    for c in ("neg", "neg2", "neg3", "neg4", "neg5"):
         ctx.mc_negative("DirectionScenes", f"MC_DirectionScenes_{c}.cfg")
     ctx.assumptions += [
         "thresholds 1e-3 (uniform) and 0.1 (Gaussian) are taken from the statement, not derived",
@@ -77,10 +80,10 @@ def _vec(axis, pol, phi):
 
 
 def _case(cfg, rng, radius=None):
-    a, d, p, pr, r, b = cfg
+    a, d, p, pr, r, b, sw = cfg
     phi = math.radians(rng.choice([-1, 1]) * rng.uniform(10.0, 80.0))
     rad = 0 if b == "uniform" else (radius if radius is not None else rng.choice([300, 350, 500]))
-    return {"id": f"{'xyz'[a]}{d}-{p}-{pr}-r{r}-{b}", "axis": a, "dir": d, "pol": p, "profile": pr, "res": r, "beam": b, "phi": phi, "radiusMilli": rad}
+    return {"id": f"{'xyz'[a]}{d}-{p}-{pr}-r{r}-{b}-{sw}", "axis": a, "dir": d, "pol": p, "profile": pr, "res": r, "beam": b, "switch": sw, "phi": phi, "radiusMilli": rad}
 
 
 def gen_cases(ctx):
@@ -106,8 +109,13 @@ def gen_cases(ctx):
     other = "-" if d0 == "+" else "+"
     # uniform: both directions x both profiles; plus one uniform and one Gaussian scene with seeded direction / profile
     plan = [("uniform", d0, "cw"), ("uniform", other, "pulse"), ("uniform", rng.choice(["+", "-"]), rng.choice(["cw", "pulse"])), ("gauss", rng.choice(["+", "-"]), rng.choice(["cw", "pulse"]))]
+    # switches: the three uniform scenes carry the three switch classes (always-on, delayed start, start+end window): every run
+    # exercises the update path of sources with a non-default switch twice; the Gaussian scene uses a seeded class
+    sws = list(SWITCHES)
+    rng.shuffle(sws)
+    sws.append(rng.choice(SWITCHES))
     for i, (b, d, pr) in enumerate(plan):
-        yield _case((axes[i], d, pols[i], pr, res[i], b), rng, radius=300)
+        yield _case((axes[i], d, pols[i], pr, res[i], b, sws[i]), rng, radius=300)
 
 
 # ------------------------------------------------------------------ scene construction (public pipeline)
@@ -124,7 +132,10 @@ def geometry(case):
     dt, cn = _base()
     cpw = case["res"]
     psteps = cpw / cn                                   # period in steps
-    T = int(round(NPERIODS * psteps))
+    sw = case.get("switch", "on")
+    nper = NPERIODS + (EXTRA_PERIODS if sw != "on" else 0)
+    delay_nominal = int(math.ceil(DELAY_PERIODS[sw] * psteps))
+    T = int(round(nper * psteps))
     if case["beam"] == "uniform":
         pml, gap, W = 10, int(round(0.4 * cpw)), 3
     else:
@@ -134,7 +145,8 @@ def geometry(case):
         ramp = int(math.ceil(4 * psteps))               # SingleFrequencyProfile.num_startup_periods = 4 (asserted in _build)
     else:
         ramp = int(math.ceil(12 * PULSE_SWF / (2 * math.pi) * psteps))
-    return {"psteps": psteps, "T": T, "pml": pml, "gap": gap, "W": W, "rampSteps": ramp, "settleSteps": settle, "tSteady": ramp + settle}
+    return {"psteps": psteps, "nper": nper, "T": T, "pml": pml, "gap": gap, "W": W, "rampSteps": ramp, "settleSteps": settle,
+            "tSteady": delay_nominal + 1 + ramp + settle}
 
 
 def _build(case):
@@ -170,6 +182,11 @@ def _build(case):
     lo = [0 if uniform else pml] * 3
     vec = tuple(_vec(axis, case["pol"], case["phi"]))
     kw = dict(name="src", partial_grid_shape=tuple(pshape), wave_character=wc, temporal_profile=tp, direction=case["dir"])
+    sw = case.get("switch", "on")
+    if sw == "delay":
+        kw["switch"] = fdtdx.OnOffSwitch(start_after_periods=DELAY_PERIODS[sw], period=wc.get_period())
+    elif sw == "window":      # start + end window; the end lies after the last step, so the measuring interval is covered
+        kw["switch"] = fdtdx.OnOffSwitch(start_after_periods=DELAY_PERIODS[sw], end_after_periods=g["nper"] + 3.0, period=wc.get_period())
     kw["fixed_H_polarization_vector" if case["pol"] == "hfix" else "fixed_E_polarization_vector"] = vec
     if uniform:
         src = fdtdx.UniformPlaneSource(**kw)
@@ -211,6 +228,10 @@ def observe(case):
     periodic = all(type(b).__name__ == "BlochBoundary" and tuple(float(v) for v in b.bloch_vector) == (0.0, 0.0, 0.0) for b in obj.boundary_objects if b.axis != axis)
     normal = bool(src.azimuth_angle == 0.0 and src.elevation_angle == 0.0 and src.max_angle_random_offset == 0.0)
     homogeneous = bool(np.all(np.asarray(arrays.inv_permittivities) == 1.0) and np.all(np.asarray(arrays.inv_permeabilities) == 1.0))
+    on = np.asarray(src._is_on_at_time_step_arr, dtype=bool)
+    assert on.shape[0] == g["T"] and on.any()
+    delay = int(np.argmax(on))                         # first step at which the placed source is on
+    on_to_end = bool(on[delay:].all())
     k_src, k_lo, k_hi = (int(by[n].grid_slice_tuple[axis][0]) for n in ("src", "lo", "hi"))
     assert k_lo < k_src < k_hi, (k_lo, k_src, k_hi)
     for n in ("lo", "hi"):      # planes have the transverse extent of the source
@@ -224,7 +245,7 @@ def observe(case):
     T, p = g["T"], g["psteps"]
     wins = []
     if case["profile"] == "cw":
-        edges = [int(round(k * p)) for k in range(NPERIODS + 1)]
+        edges = [int(round(k * p)) for k in range(g["nper"] + 1)]
         edges[-1] = min(edges[-1], T)
         for a, b in zip(edges[:-1], edges[1:]):
             wins.append((a, b, float(np.mean(fwd[a:b])), float(np.mean(back[a:b]))))
@@ -238,7 +259,7 @@ def observe(case):
         events.append({"t0": a, "t1": b, "fwdPos": pos, "pf": _units(1e9 * pf / ref) if (ref > 0 and math.isfinite(ref)) else 0,
                        "ratio": _units(1e9 * abs(pb) / pf) if pos else 2_000_000_000})
     steady = [e for e in events if (e["t0"] >= g["tSteady"] if case["profile"] == "cw" else e["t1"] >= g["tSteady"])]
-    return {"id": case["id"], "axis": axis, "dir": case["dir"], "pol": case["pol"], "profile": case["profile"], "res": case["res"], "beam": case["beam"],
+    return {"id": case["id"], "axis": axis, "dir": case["dir"], "pol": case["pol"], "profile": case["profile"], "res": case["res"], "beam": case["beam"], "switch": case.get("switch", "on"), "delaySteps": delay, "onToEnd": on_to_end,
             "cpwMilli": int(round(1000 * (case["res"] * RES) / config.uniform_spacing())), "radiusMilli": case["radiusMilli"],
             "normal": normal, "periodic": bool(periodic), "homogeneous": homogeneous,
             "tSteady": g["tSteady"], "rampSteps": g["rampSteps"], "settleSteps": g["settleSteps"], "T": T, "events": events,
